@@ -170,6 +170,13 @@ def _gen_value0(rng, param=None, depth=0):
         if c == "List" and depth < 3:
             k = rng.choice([0, 1, 2, 3])
             items = [_gen_value0(rng, param["of"], depth + 1) for _ in range(k)]
+            if rng.random() < 0.12:
+                # items that are equal as numbers but of different kinds, side by side
+                same = rng.choice([[{"t": "int", "v": 1}, {"t": "float", "v": 1.0}, {"t": "bool", "v": True}],
+                                   [{"t": "float", "v": 2.0}, {"t": "int", "v": 2}, {"t": "str", "v": "2"}],
+                                   [{"t": "int", "v": 0}, {"t": "float", "v": 0.0}, {"t": "bool", "v": False}]])
+                rng.shuffle(same)
+                items = same[:rng.randint(2, 3)] + items[:1]
             wrap = rng.random()
             if wrap < 0.25:
                 items = [{"t": "arg", "v": it} if it["t"] not in ("list", "listarg") else it for it in items]
